@@ -133,6 +133,9 @@ func (ft *fnTrans) callWrites(c *ssa.CallCommon) ([]string, bool) {
 		return nil, false
 	}
 	key, callee := ft.calleeKey(c)
+	if strings.HasPrefix(key, "sync/atomic.Add") {
+		return ft.rootComps(c.Args[0]), false
+	}
 	if nativeModel(key) {
 		return []string{compTop}, false
 	}
